@@ -34,6 +34,9 @@ class Interp:
         self.dmath = dmath
         it = self
         self.calls = []
+        self.ncalls = Counter()
+        self.nest = []
+        self.executed = []
         self.current = None         # (transform idx, prop) being assigned
 
         def make_method(ev):
@@ -107,6 +110,32 @@ class Interp:
                 inside = e
         self.trace.add('cb', li, ev, repr(value))
         self.calls.append((li, ev, value, inside))
+        n = self.ncalls[li]
+        self.ncalls[li] += 1
+        script = self.sc.get('scripts', {}).get(f'cb:{li}:{n}')
+        if script and len(self.nest) < 4:
+            for op in script:
+                if op[0] == 'assign' and op[1] < len(self.transforms):
+                    self.probes['assignment_from_inside_a_callback'] += 1
+                    self.nested_assign(op)
+
+    def nested_assign(self, op):
+        """An assignment issued by a listener while a notification is being
+        delivered (feedback between transforms, clamping, ...)."""
+        _, t, prop, v = op
+        val = self.value(self.dims[t], prop, v)
+        self.nest.append((t, prop, val))
+        self.executed.append((t, prop, val))
+        self.model[t][prop] = ('rot2', val) if (
+            prop == 'rotation' and self.dims[t] == 2) else val
+        saved = self.current
+        self.current = (t, prop)
+        try:
+            setattr(self.transforms[t], prop, val)
+        finally:
+            self.current = saved
+            self.nest.pop()
+        self.last_assigned = t
 
     def check_reads(self):
         for i, t in enumerate(self.transforms):
@@ -153,9 +182,11 @@ class Interp:
         dim = self.dims[t]
         val = self.value(dim, prop, v)
         self.calls = []
+        self.executed = [(t, prop, val)]
+        self.nest = [(t, prop, val)]
         self.current = (t, prop)
         try:
-            with kernel.budget(5000):
+            with kernel.budget(20000):
                 setattr(self.transforms[t], prop, val)
         except Violation:
             raise
@@ -166,6 +197,9 @@ class Interp:
                       f'{type(e).__name__}: {e}')
         finally:
             self.current = None
+            self.nest = []
+        if len(self.executed) > 1:
+            return self.judge_cascade()
         self.last_assigned = t
         if prop == 'rotation' and dim == 2:
             self.model[t][prop] = ('rot2', val)
@@ -209,6 +243,37 @@ class Interp:
         if others:
             self.probes['cross_event_silence_checked'] += 1
         self.stats['assignments'] += 1
+
+    def judge_cascade(self):
+        """Several assignments ran inside one another: every one of them
+        notifies every listener of its transform and event exactly once,
+        with the value it stored (values are unique per assignment)."""
+        want = Counter()
+        for k, (t, prop, val) in enumerate(self.executed):
+            stored = val % 360. if (prop == 'rotation'
+                                    and self.dims[t] == 2) else val
+            if k == 0 and prop == 'rotation' and self.dims[t] == 2:
+                self.model[t][prop] = self.model[t][prop]
+            for li in self.reg[t]:
+                names = self.cfg['lclasses'][self.cfg['listeners'][li]]
+                if prop in names:
+                    want[(li, EVENT[prop], repr(stored))] += 1
+        # the first assignment's model entry (nested ones set theirs)
+        t0, p0, v0 = self.executed[0]
+        if not any((t, p) == (t0, p0) for t, p, v in self.executed[1:]):
+            self.model[t0][p0] = ('rot2', v0) if (
+                p0 == 'rotation' and self.dims[t0] == 2) else v0
+        got = Counter((li, ev, repr(value))
+                      for li, ev, value, inside in self.calls)
+        if got != want:
+            missing = list((want - got).elements())
+            extra = list((got - want).elements())
+            self.fail('count', f'assignments {self.executed} (nested in one '
+                      f'another): notifications missing {missing}, '
+                      f'unexpected {extra}')
+        self.probes['cascade_checked'] += 1
+        self.last_assigned = None
+        self.stats['assignments'] += len(self.executed)
 
     def nontrivial(self):
         return bool(self.probes['rotation_out_of_range_with_listener']
@@ -285,8 +350,24 @@ def generate(prop, run_seed, tier='quick', tolerate=frozenset()):
             ops.append(['add', rng.randrange(nl), rng.randrange(nt)])
         else:
             ops.append(['remove', rng.randrange(nl), rng.randrange(nt)])
+    scripts = {}
+    if crng.random() < .25:
+        # feedback: a listener assigns again from inside its callback
+        uniq = [0]
+
+        def unique_value(dim, p):
+            uniq[0] += 1
+            if p == 'rotation' and dim == 2:
+                return 1000.25 + uniq[0]
+            return ['vec', [500 + uniq[0]] + [1] * (dim - 1)]
+        for _ in range(rng.randint(1, 4)):
+            li = rng.randrange(nl)
+            t = rng.randrange(nt)
+            p = rng.choice(PROPS)
+            scripts[f'cb:{li}:{rng.randint(0, 6)}'] = [
+                ['assign', t, p, unique_value(transforms[t]['dim'], p)]]
     return {'format': 1, 'engine': 'transform', 'config': cfg, 'ops': ops,
-            'scripts': {}}
+            'scripts': scripts}
 
 
 def simplify(sc):
@@ -324,4 +405,5 @@ INFO = {'C20': {
 PROBES = {'C20': ['rotation_out_of_range', 'negative_rotation',
                   'shared_listener', 'cross_event_silence_checked',
                   'constructed_with_values',
-                  'rotation_out_of_range_with_listener']}
+                  'rotation_out_of_range_with_listener',
+                  'assignment_from_inside_a_callback', 'cascade_checked']}
